@@ -102,22 +102,25 @@ Pool == << A,
            Grp("and", <<Min(2, {"a", "b", "c"}, FALSE), Grp("or", <<C, D>>, TRUE)>>, FALSE),
            Grp("or", <<Score("a", 5, FALSE), Grp("and", <<B, C>>, FALSE)>>, FALSE) >>
 
-(* superiors chains: r2 under r1, r3 under r2 (and so under r1), split over one or two files *)
+(* superiors chains: r2 under r1, r3 under r2 (and so under r1), r4 / r5 with two superiors, split over one to three files *)
 ChainFiles(ts, split, explicit) ==
     LET r1 == R("r1", "C", 10, 20, <<>>, RenderTop(ts[1], PlainStyle), <<>>, <<>>)
         r2 == R("r2", "D", 5, 7, <<"r1">>, RenderTop(ts[2], PlainStyle), <<>>, <<>>)
         r3 == R("r3", "C", 3, 1, IF explicit THEN <<"r2", "r1">> ELSE <<"r2">>, RenderTop(ts[3], PlainStyle), <<>>, <<>>)
         (* r4 names r1 first: what it inherits comes through its second superior *)
         r4 == R("r4", "D", 2, 4, <<"r1", "r3">>, <<"b">>, <<>>, <<>>)
-    IN  CASE split = 0 -> << r1 \o r2 \o r3 \o r4 >>
-          [] split = 1 -> << r1, r2 \o r3 \o r4 >>
-          [] split = 2 -> << r1 \o r2, r3 \o r4 >>
-          [] split = 3 -> << r1, r2, r3 \o r4 >>
+        (* r5 names r3 first and r1 last: what it inherits (r2) comes through its first superior only *)
+        r5 == R("r5", "C", 15, 4, <<"r3", "r1">>, <<"c">>, <<>>, <<>>)
+    IN  CASE split = 0 -> << r1 \o r2 \o r3 \o r4 \o r5 >>
+          [] split = 1 -> << r1, r2 \o r3 \o r4 \o r5 >>
+          [] split = 2 -> << r1 \o r2, r3 \o r4 \o r5 >>
+          [] split = 3 -> << r1, r2, r3 \o r4 \o r5 >>
 ChainExp(ts, m) ==
     << [name |-> "r1", category |-> "C", cutoff |-> Scale(10, m[1], m[2]), nbhd |-> Scale(20, m[3], m[4]), superiors |-> {}, ast |-> ts[1], ext |-> NoNode],
        [name |-> "r2", category |-> "D", cutoff |-> Scale(5, m[1], m[2]), nbhd |-> Scale(7, m[3], m[4]), superiors |-> {"r1"}, ast |-> ts[2], ext |-> NoNode],
        [name |-> "r3", category |-> "C", cutoff |-> Scale(3, m[1], m[2]), nbhd |-> Scale(1, m[3], m[4]), superiors |-> {"r1", "r2"}, ast |-> ts[3], ext |-> NoNode],
-       [name |-> "r4", category |-> "D", cutoff |-> Scale(2, m[1], m[2]), nbhd |-> Scale(4, m[3], m[4]), superiors |-> {"r1", "r2", "r3"}, ast |-> B, ext |-> NoNode] >>
+       [name |-> "r4", category |-> "D", cutoff |-> Scale(2, m[1], m[2]), nbhd |-> Scale(4, m[3], m[4]), superiors |-> {"r1", "r2", "r3"}, ast |-> B, ext |-> NoNode],
+       [name |-> "r5", category |-> "C", cutoff |-> Scale(15, m[1], m[2]), nbhd |-> Scale(4, m[3], m[4]), superiors |-> {"r1", "r2", "r3"}, ast |-> C, ext |-> NoNode] >>
 ChainCases ==
     {Case("chain", ChainFiles(<<Pool[q[1]], Pool[q[2]], Pool[q[3]]>>, split, explicit), m, sep, "denote",
           (q = <<2, 3, 4>> /\ split = 0 /\ m = UnitMult /\ sep = 0 /\ ~explicit)
